@@ -2,6 +2,7 @@
 '''Request and response payload.'''
 import io
 import os
+import shutil
 import tempfile
 
 import wpull.util
@@ -27,7 +28,28 @@ class Body(object):
         self._content_data = None
 
     def __getattr__(self, key):
+        if key == 'file':
+            # Not set yet (an instance being built by copy or pickle).
+            raise AttributeError(key)
+
         return getattr(self.file, key)
+
+    def __deepcopy__(self, memo):
+        '''Return a body with its own file holding the same content.
+
+        The new body is positioned at the start so that a copied request
+        can be sent again.
+        '''
+        new_body = Body(io.BytesIO() if isinstance(self.file, io.BytesIO)
+                        else None)
+
+        with wpull.util.reset_file_offset(self.file):
+            self.file.seek(0)
+            shutil.copyfileobj(self.file, new_body.file)
+
+        new_body.file.seek(0)
+
+        return new_body
 
     def content(self):
         '''Return the content of the file.
